@@ -17,8 +17,8 @@ package main
 import (
 	"errors"
 	"fmt"
-	"slices"
 	"runtime"
+	"slices"
 	"sort"
 	"strconv"
 	"strings"
